@@ -183,6 +183,20 @@ pub fn parse_bytes(s: &str) -> Result<Vec<u8>, ParseSequenceError> {
 /// The returned result can display a human readable error if the string cannot be parsed as a
 /// valid quoted string.
 pub fn parse_string(s: &str) -> Result<String, ParseSequenceError> {
+    // Triple-quoted forms may contain their own quote character, so their delimiters are
+    // found by position rather than by tracking quote characters.
+    if let Some((raw, body)) = split_triple_quoted(s) {
+        return if raw {
+            Ok(body.to_string())
+        } else {
+            parse_quoted_body(
+                s,
+                &mut body.chars().enumerate(),
+                String::with_capacity(body.len()),
+            )
+        };
+    }
+
     let mut chars = s.chars().enumerate();
     let res = String::with_capacity(s.len());
 
@@ -191,6 +205,85 @@ pub fn parse_string(s: &str) -> Result<String, ParseSequenceError> {
         Some((_, c)) if c == '\'' || c == '"' => parse_quoted_string(s, &mut chars, res, c),
         _ => Err(ParseSequenceError::MissingOpeningQuote),
     }
+}
+
+/// Splits a triple-quoted literal (optionally prefixed by `r`/`R`) into its rawness and body.
+fn split_triple_quoted(s: &str) -> Option<(bool, &str)> {
+    let (raw, rest) = match s.strip_prefix(['r', 'R']) {
+        Some(rest) => (true, rest),
+        None => (false, s),
+    };
+    for quotes in ["\"\"\"", "'''"] {
+        if rest.len() >= 6 && rest.starts_with(quotes) && rest.ends_with(quotes) {
+            return Some((raw, &rest[3..rest.len() - 3]));
+        }
+    }
+    None
+}
+
+/// Decodes the body of a triple-quoted string: escape sequences are interpreted, every other
+/// character (quotes and newlines included) stands for itself.
+fn parse_quoted_body<I>(
+    s: &str,
+    chars: &mut I,
+    mut res: String,
+) -> Result<String, ParseSequenceError>
+where
+    I: Iterator<Item = (usize, char)>,
+{
+    while let Some((idx, c)) = chars.next() {
+        if c != '\\' {
+            res.push(c);
+            continue;
+        }
+        let Some((idx2, c2)) = chars.next() else {
+            return Err(ParseSequenceError::InvalidEscape {
+                escape: format!("{}", c),
+                index: idx,
+                string: String::from(s),
+            });
+        };
+        let value = match c2 {
+            'a' => '\u{07}',
+            'b' => '\u{08}',
+            'v' => '\u{0B}',
+            'f' => '\u{0C}',
+            'n' => '\n',
+            'r' => '\r',
+            't' => '\t',
+            '\\' | '?' | '\'' | '"' | '`' => c2,
+            'x' | 'X' | 'u' | 'U' => {
+                let length = match c2 {
+                    'x' | 'X' => 2,
+                    'u' => 4,
+                    _ => 8,
+                };
+                parse_unicode_hex(length, chars).map_err(|x| {
+                    ParseSequenceError::InvalidUnicode {
+                        source: x,
+                        index: idx2,
+                        string: String::from(s),
+                    }
+                })?
+            }
+            n if ('0'..='3').contains(&n) => {
+                parse_unicode_oct(&n, chars).map_err(|x| ParseSequenceError::InvalidUnicode {
+                    source: x,
+                    index: idx2,
+                    string: String::from(s),
+                })?
+            }
+            _ => {
+                return Err(ParseSequenceError::InvalidEscape {
+                    escape: format!("{}{}", c, c2),
+                    index: idx2,
+                    string: String::from(s),
+                });
+            }
+        };
+        res.push(value);
+    }
+    Ok(res)
 }
 
 fn parse_raw_string(
